@@ -43,6 +43,8 @@ func ruleC19(r *Report) {
 	r.Rule("C19.keys", "the service registry and the backing store are written, read and deleted under the same key expressions: registry updates and deletes use one field path of the service record; within a handler all item-level store calls use one key; item keys are a collection prefix plus one %s", 10)
 	safely(r, func() { checkKeyAgreement(r, p) })
 	checkStoreFailureReplies(r, p)
+	r.Rule("C19.whole-password", "the password hashed when a user is stored and the password compared at login are the client's string itself, whole (a sub-range on one side lets a password that was never the user's pass)", 1)
+	safely(r, func() { checkWholePassword(r, p, "C19.whole-password") })
 }
 
 func storeCallKind(c *ssa.CallCommon) string {
@@ -935,6 +937,21 @@ func checkHash(r *Report, p *Prog) {
 									r.OK("C19.hash", cons+" (credential check)", p.InstrPos(use), "first argument of CompareHashAndPassword")
 									continue
 								}
+								// ... or of an unexported helper of the package that uses it for nothing but that check
+								if sc := y.Call.StaticCallee(); sc != nil && p.InLibrary(sc) && inPkg(sc, idpPkgPath) && len(sc.Blocks) > 0 {
+									bad := ""
+									for i, a := range y.Call.Args {
+										if a == ssa.Value(x) && i < len(sc.Params) {
+											bad = firstNonEmpty(bad, hashParamMisuse(p, sc, sc.Params[i], 0))
+										}
+									}
+									if bad == "" {
+										r.OK("C19.hash", cons+" (credential check in "+shortFn(sc)+")", p.InstrPos(use), "the helper hands it only to CompareHashAndPassword")
+										continue
+									}
+									r.Bad("C19.hash", cons, p.InstrPos(use), "the hash is passed to "+calleeName(&y.Call)+", where "+bad)
+									continue
+								}
 								r.Bad("C19.hash", cons, p.InstrPos(use), "the hash is passed to "+calleeName(&y.Call))
 							case *ssa.Store:
 								if fa2, ok := y.Addr.(*ssa.FieldAddr); ok && fieldName(fa2.X.Type(), fa2.Field) == "HashedPassword" && typeIs(fa2.X.Type(), idpPkgPath, "User") {
@@ -1591,4 +1608,112 @@ func checkStoreFailureReplies(r *Report, p *Prog) {
 			}
 		}
 	}
+}
+
+// checkWholePassword: C19.whole-password. The credential a user is stored with and the credential a login presents go
+// into bcrypt whole: the password operand of GenerateFromPassword (user management) and of CompareHashAndPassword (login)
+// is the []byte conversion of the client's string itself. A sub-range on one side only (the stored hash covers a prefix,
+// the comparison the whole, or the reverse) lets a password that was never the user's pass the check.
+func checkWholePassword(r *Report, p *Prog, rule string) {
+	n := 0
+	for _, root := range p.modFns {
+		if !p.InLibrary(root) || root.Pkg == nil || root.Pkg.Pkg.Path() != idpPkgPath || root.Signature.Recv() == nil || root.Object() == nil || !root.Object().Exported() {
+			continue
+		}
+		hasReq := false
+		for _, prm := range root.Params {
+			hasReq = hasReq || typeIs(prm.Type(), "net/http", "Request")
+		}
+		if !hasReq {
+			continue
+		}
+		rg := NewRegion(p, root, 3)
+		rg.Each(func(x RI) {
+			c, ok := x.I.(*ssa.Call)
+			if !ok {
+				return
+			}
+			var pw ssa.Value
+			what := ""
+			switch {
+			case calleeIs(c, "golang.org/x/crypto/bcrypt.GenerateFromPassword"):
+				pw, what = c.Call.Args[0], "hashed when the user is stored"
+			case calleeIs(c, "golang.org/x/crypto/bcrypt.CompareHashAndPassword"):
+				pw, what = c.Call.Args[1], "compared at login"
+			default:
+				return
+			}
+			n++
+			r.Fn(p.FnName(x.C.fn))
+			cons := fmt.Sprintf("%s: the password %s is the client's string, whole", p.FnName(root), what)
+			bad := ""
+			var visit func(v RV, d int)
+			visit = func(v RV, d int) {
+				for _, o := range rg.Origins(v) {
+					switch y := o.V.(type) {
+					case *ssa.Convert:
+						if d < 4 {
+							visit(RV{V: y.X, C: o.C}, d+1)
+							continue
+						}
+					case *ssa.UnOp:
+						if y.Op == token.MUL {
+							continue // a field of the decoded user record / a dereferenced *string
+						}
+					case *ssa.Call:
+						if sc := y.Call.StaticCallee(); sc != nil {
+							switch sc.String() {
+							case "(*net/http.Request).FormValue", "(*net/http.Request).PostFormValue", "(net/url.Values).Get":
+								continue
+							}
+						}
+					}
+					if bad == "" {
+						bad = o.V.String()
+						if in, ok := o.V.(ssa.Instruction); ok {
+							bad += " at " + p.InstrPos(in)
+						}
+					}
+				}
+			}
+			visit(RV{V: pw, C: x.C}, 0)
+			r.Check(bad == "", rule, cons, p.InstrPos(c), "the operand is the []byte conversion of the posted string", "the operand is not the client's password itself: "+bad)
+		})
+	}
+	if n == 0 {
+		panic(unresolved{"role credential steps (bcrypt.GenerateFromPassword / CompareHashAndPassword under the bundled server's handlers)"})
+	}
+}
+
+// hashParamMisuse: what a helper does with the stored hash it receives other than comparing a password against it ("" if
+// nothing).
+func hashParamMisuse(p *Prog, fn *ssa.Function, prm *ssa.Parameter, depth int) string {
+	if depth > 2 {
+		return "it is handed on through more than two helpers"
+	}
+	for _, use := range *prm.Referrers() {
+		switch y := use.(type) {
+		case *ssa.DebugRef:
+		case *ssa.Call:
+			if calleeIs(y, "golang.org/x/crypto/bcrypt.CompareHashAndPassword") && y.Call.Args[0] == ssa.Value(prm) {
+				continue
+			}
+			if sc := y.Call.StaticCallee(); sc != nil && p.InLibrary(sc) && inPkg(sc, idpPkgPath) && len(sc.Blocks) > 0 {
+				bad := ""
+				for i, a := range y.Call.Args {
+					if a == ssa.Value(prm) && i < len(sc.Params) {
+						bad = firstNonEmpty(bad, hashParamMisuse(p, sc, sc.Params[i], depth+1))
+					}
+				}
+				if bad == "" {
+					continue
+				}
+				return bad
+			}
+			return "it is passed to " + calleeName(&y.Call) + " at " + p.InstrPos(y)
+		default:
+			return "it flows into " + use.String() + " at " + p.InstrPos(use)
+		}
+	}
+	return ""
 }
